@@ -41,9 +41,15 @@ def pipeline(ctx):
             if cov.get(a, (0, 0))[1] == 0:
                 raise ToolError("vacuity: %s never taken" % a)
     vecs = vectors(ctx)
-    args = ["c07-run", "--seed", ctx.seed] + (["--formats", QUICK_FORMATS] if ctx.quick else [])
-    p = vh(args, stdin="\n".join(json.dumps(v) for v in vecs), timeout=20000)
-    recs = [json.loads(l) for l in p.stdout.splitlines() if l.strip()]
+    # one harness process per format (the formats are independent), run in parallel
+    fmts = QUICK_FORMATS.split(",") if ctx.quick else ["jpeg", "png", "gif", "webp", "wav", "avi", "tiff", "svg", "mp3", "flac", "jxl", "mp4", "avif", "heic"]
+    stdin = "\n".join(json.dumps(v) for v in vecs)
+    import concurrent.futures as cf
+    def one(f):
+        return vh(["c07-run", "--seed", ctx.seed, "--formats", f], stdin=stdin, timeout=20000).stdout
+    with cf.ThreadPoolExecutor(max_workers=8) as ex:
+        outs = list(ex.map(one, fmts))
+    recs = [json.loads(l) for o in outs for l in o.splitlines() if l.strip()]
     events, owner = [], []
     setup_errors = []
     for ri, x in enumerate(recs):
